@@ -100,17 +100,21 @@ def _jac_logdet(t, x_row, c_row):
     return torch.slogdet(J)[1].item()
 
 
-def jacobian_search(ctx, budget_s=300):
+def jacobian_search(ctx, budget_s=300, entries=None, count=False):
     """C01 oracle: returned forward log-abs-det vs log|det| of the autograd Jacobian, row by row"""
     gen = torch.Generator().manual_seed(ctx.seed + 101)
     from .tcorr import build
-    for e in all_entries('quick'):
+    for e in (entries if entries is not None else all_entries('quick')):
+        if e.extra.get('big'):
+            continue
         for regime in ('normal', 'fresh'):
             try:
                 t = build(e, gen, torch.float64, regime)
                 x = R.make_inputs(e, 2, gen, torch.float64, False)
                 c = R.make_context(e, 2, gen, torch.float64)
                 kind, y, ld = R.impl_call(t, x, c, False)
+                if count:
+                    ctx.case(key=('direct-jacobian', e.name, regime), branch='direct-jacobian', nontrivial=True, n=int(x.numel()))
                 if kind != 'ok':
                     ctx.fail('forward raised %s on in-domain inputs' % kind, {'entry': e.name, 'regime': regime},
                              match={'class': e.name.split('/')[0], 'symptom': 'raises'})
@@ -130,6 +134,8 @@ def jacobian_search(ctx, budget_s=300):
                 ctx.notes.append('jacobian oracle on %s raised %r' % (e.name, ex))
         if len(ctx.failing) >= 8 or ctx.elapsed() > budget_s:
             break
+    if entries is not None:
+        return
     # exported spline functions on non-default boxes
     for fam in S.FAMS:
         for box in ((0.0, 1.0, 0.0, 2.0), (-1.5, 2.0, 0.25, 4.0)):
@@ -145,11 +151,13 @@ def jacobian_search(ctx, budget_s=300):
                          {'fn': fam + '_spline', 'box': box}, match={'fn': fam + '_spline', 'symptom': 'box-logdet'})
 
 
-def roundtrip_search(ctx, budget_s=300):
+def roundtrip_search(ctx, budget_s=300, entries=None, count=False):
     """C02 oracle: inverse(forward(x)) = x, forward(inverse(y)) = y, negated log-dets, finiteness"""
     gen = torch.Generator().manual_seed(ctx.seed + 202)
     from .tcorr import build
-    for e in all_entries('quick'):
+    for e in (entries if entries is not None else all_entries('quick')):
+        if e.extra.get('big'):
+            continue
         for regime in ('zeros', 'normal', 'fresh'):
             try:
                 t = build(e, gen, torch.float64, regime)
@@ -158,6 +166,8 @@ def roundtrip_search(ctx, budget_s=300):
                 kind, y, ld = R.impl_call(t, x, c, False)
                 if kind != 'ok':
                     continue
+                if count:
+                    ctx.case(key=('direct-roundtrip', e.name, regime), branch='direct-roundtrip', nontrivial=True, n=int(x.numel()))
                 k2, xi, ldi = R.impl_call(t, y, c, True)
                 cls = e.name.split('/')[0]
                 case = {'entry': e.name, 'regime': regime, 'x': x.reshape(-1).tolist()[:16]}
@@ -308,3 +318,13 @@ def replay_transform_finding(ctx, f):
     if fn is None:
         return None
     return bool(fn())
+
+
+def direct_on_extras(ctx, prop, fn, **kw):
+    """classes the transform-level model does not cover: run the property's own check on them as part of the
+    correspondence stage; failing inputs that are not listed known findings count as disagreements"""
+    before = len(ctx.failing)
+    fn(ctx, entries=extra_entries(), count=True, **kw)
+    for f in ctx.failing[before:]:
+        if not ctx.is_known(f.get('match', {})):
+            ctx.disagree(prop + '/direct', f['case'], f['what'], 'property holds', f['what'])
